@@ -530,6 +530,23 @@ pub fn check_valid(p: &Prog) -> Result<(), String> {
 /// isolation on every run (frequency floor of the coverage table).
 pub fn gen_cell_progs(r: &mut Rng) -> Vec<(Prog, String)> {
     let mut out = vec![];
+    for c in gen_cells(r) {
+        if let Some(pp) = c.after_tee {
+            out.push((pp, format!("{}@after-tee", c.label)));
+        }
+        out.push((c.direct, format!("{}@direct", c.label)));
+    }
+    out
+}
+
+pub struct Cell {
+    pub label: String,
+    pub direct: Prog,
+    pub after_tee: Option<Prog>,
+}
+
+pub fn gen_cells(r: &mut Rng) -> Vec<Cell> {
+    let mut out = vec![];
     for op in templates(r) {
         let label = op.label();
         let mut built = None;
@@ -573,12 +590,8 @@ pub fn gen_cell_progs(r: &mut Rng) -> Vec<(Prog, String)> {
             break;
         }
         let Some((prog, op_idx)) = built else { continue };
-        if prog.nodes[op_idx].ins.len() == 1 {
-            if let Some(pp) = crate::rewrite::force_push(&prog, op_idx) {
-                out.push((pp, format!("{label}@after-tee")));
-            }
-        }
-        out.push((prog, format!("{label}@direct")));
+        let after_tee = if prog.nodes[op_idx].ins.len() == 1 { crate::rewrite::force_push(&prog, op_idx) } else { None };
+        out.push(Cell { label, direct: prog, after_tee });
     }
     out
 }
